@@ -12,7 +12,7 @@ import SqlglotModel.Generated.C11
 
 namespace SqlglotModel.Properties.C11
 open SqlglotModel.Sem SqlglotModel.Exec
-open SqlglotModel.Generated.C11 (cfg envIdentity)
+open SqlglotModel.Generated.C11 (cfg envIdentity widenForm)
 
 /-- finite table fact (decided completely): the constants, index offsets, side sets, empty_null flags and operator
     lambdas extracted from the current source are the ones the theorems below are proved for -/
@@ -313,6 +313,29 @@ theorem alias_shadow_counterexample :
     exec cfg ⟨["a", "b"], [[.int 1, .int 2], [.int 2, .int 1]]⟩ (plan aliasShadowQuery)
       = some ⟨["b", "q"], [[.int 1, .int 2], [.int 2, .int 1]]⟩
     ∧ aliasShadowQuery.eval [[.int 1, .int 2], [.int 2, .int 1]] = [[.int 2, .int 1], [.int 1, .int 2]] := by
+  decide +kernel
+
+/-! ## aliasing: join() shares one rows list between its tables; aggregate() must widen it in place -/
+
+/-- pinned from the source (ast of aggregate()): the operand columns are attached by subscript stores
+    `context.table.rows[i] = a + b`, not by rebinding `context.table.rows` -/
+theorem generated_widen_form_ok : widenForm = .subscriptStore := by decide
+
+/-- with that form, after aggregate()'s widening and its in-place group-key sort EVERY table of the join context reads
+    the same list — the widened rows, sorted — for all row lists, operand lists and any number of joined tables; so a
+    group key or aggregate argument taken from any joined table is paired with the right row -/
+theorem aggregate_views_consistent (rows ops : List Row) (n : Nat) (keyOf : Row → Key) (v : Nat) (hv : v < n) :
+    (((Heap.ofJoin rows n).widen widenForm ops).sortInPlace keyOf).read v = sortByGroupKey keyOf (widened rows ops) := by
+  rw [generated_widen_form_ok]
+  exact SqlglotModel.Exec.aggregate_views_consistent rows ops n keyOf v hv (by omega)
+
+/-- witness: rebinding the first table's `rows` attribute instead (`context.table.rows = [a + b …]`) leaves the other
+    tables of the join on the old list object: the second table still reads the unwidened, unsorted rows -/
+theorem rebind_breaks_views_witness :
+    (((Heap.ofJoin [[.int 2], [.int 1]] 2).widen .attributeRebind [[.int 20], [.int 10]]).sortInPlace (fun r => r.take 1)).read 0
+      = [[.int 1, .int 10], [.int 2, .int 20]]
+    ∧ (((Heap.ofJoin [[.int 2], [.int 1]] 2).widen .attributeRebind [[.int 20], [.int 10]]).sortInPlace (fun r => r.take 1)).read 1
+      = [[.int 2], [.int 1]] := by
   decide +kernel
 
 end SqlglotModel.Properties.C11
